@@ -20,7 +20,8 @@ def patch(owner, name, old, new, count=1):
     f = getattr(f, "__func__", f)
     if isinstance(f, property):
         raise NotImplementedError
-    src = textwrap.dedent(inspect.getsource(f))
+    src = getattr(f, "__mutant_src__", None) or textwrap.dedent(inspect.getsource(f))   # a function may be patched twice
+    orig_name = getattr(f, "__mutant_name__", f.__name__)
     assert src.count(old) >= 1, (name, old)
     src = src.replace(old, new) if count is None else src.replace(old, new, count)
     if inspect.isclass(owner):
@@ -30,10 +31,12 @@ def patch(owner, name, old, new, count=1):
     mod = sys.modules[f.__module__]
     ns = mod.__dict__   # the real module namespace: later monkeypatches of module names stay visible
     import re
-    src = re.sub(r"def %s\(" % re.escape(f.__name__), "def _mutant_fn(", src, count=1)
+    src = re.sub(r"def %s\(" % re.escape("_mutant_fn" if hasattr(f, "__mutant_src__") else f.__name__), "def _mutant_fn(", src, count=1)
     exec(compile(src, f"<mutant {name}>", "exec"), ns)
     g = ns["_mutant_fn"]
-    g.__name__ = f.__name__
+    g.__mutant_src__ = src
+    g.__mutant_name__ = orig_name
+    g.__name__ = orig_name
     g.__qualname__ = f.__qualname__
     raw = inspect.getattr_static(owner, name) if inspect.isclass(owner) else None
     if isinstance(raw, staticmethod):
@@ -321,27 +324,33 @@ def c20_model_side_by_raw_flux():
 def c20_range_zeroing_after_scaling_wrong_column():
     patch(_ms.ModelSummary, "_generate", 'flux[["minimum", "maximum"]] = flux[["minimum", "maximum"]].mul(\n            flux["factor"], axis=0\n        )', 'flux[["minimum", "maximum"]] = flux[["minimum", "maximum"]].mul(\n            flux["factor"].abs(), axis=0\n        )')
 
-# ---------------- proposed repairs (to check that they silence exactly their key and that nothing was masked)
+# ---------------- reverts of the repairs made in /repo for the defects these drivers found (regression keys must fire again)
 @mutant
-def c12_repairs():
-    patch(Model, "copy", '''        "groups",
-    }''', '''        "groups",
-        "_contexts",
-        "_compartments",
-    }
-    new._contexts = []
-    new._compartments = dict(self._compartments)''')
-    patch(Reaction, "__add__", "new_reaction += other", "new_reaction += other.copy()")
-    patch(Reaction, "__sub__", "new -= other", "new -= other.copy()")
-    def setstate(self, state):
-        self.__dict__.update(state)
-        for y in ["reactions", "genes", "metabolites", "groups"]:
-            for x in getattr(self, y):
-                x._model = self
-        if not hasattr(self, "name"):
-            self.name = None
-    Model.__setstate__ = setstate
-
+def revert_copy_in_context():          # e389e4c
+    patch(Model, "copy", "new._contexts = []", "new._contexts = self._contexts")
+@mutant
+def revert_copy_compartments():        # 10d7d3e
+    patch(Model, "copy", "new._compartments = dict(self._compartments)", "new._compartments = self._compartments")
+@mutant
+def revert_copy_notes():               # e3e549c (DESIGN section 9 #15)
+    patch(Model, "copy", "if attr in do_not_share:", "if False:", count=None)
+@mutant
+def revert_add_sub_operands():         # d8e66c0 (DESIGN section 9 #16)
+    patch(Reaction, "__add__", "new_reaction += other.copy()", "new_reaction += other")
+    patch(Reaction, "__sub__", "new -= other.copy()", "new -= other")
+@mutant
+def revert_group_pointer():            # d50da1c
+    patch(Model, "__setstate__", '"metabolites", "groups"]', '"metabolites"]')
+@mutant
+def revert_copy_tolerances():          # e3eb7c0
+    patch(Model, "copy", "new.tolerance = self._tolerance", "pass")
+    patch(Model, "__setstate__", "self.tolerance = self._tolerance", "pass")
+@mutant
+def revert_validate_per_sample():      # d679fe2
+    patch(_hr.HRSampler, "validate", "consts = prob.inequalities.dot(samples.T).T", "consts = prob.inequalities.dot(samples.T)")
+@mutant
+def revert_cyclefree_clip():           # 558db95 (visible in the thorough tier of C13 only: shipped textbook, loopless FVA twice)
+    patch(_ll, "_add_cycle_free", "flux = min(max(flux, rxn.lower_bound), rxn.upper_bound)", "pass")
 
 
 if __name__ == "__main__":
